@@ -37,7 +37,7 @@ def mk_state(els, pos, cell, rng, tag, coeffs, split_types=False, xlabels=("x",)
               chg=[(rng.randrange(-2 * QS, 2 * QS, 32) if charges else 0) for _ in range(n)], grp=[rng.randrange(0, 3) for _ in range(n)],
               xl=xl, xf=[["%s%d%s" % (tag, i, l) for l in xl] for i in range(n)],
               t_el=[e for e, _ in tname], t_mass=[(12 + i) * QS + 64 * (i + 1) for i in range(len(tname))], t_lab=[l for _, l in tname],
-              t_pair=(["%s_pair%d 1.0" % (tag, i) for i in range(len(tname))] if coeffs else []),
+              t_pair=(["%s_pair%d 1.0%s" % (tag, i, " 3.400000 # long comment" if tag == "r" else "") for i in range(len(tname))] if coeffs else []),
               cell=None if cell is None else [tuple(int(v) for v in r) for r in cell])
     for k, *_ in KINDS:
         st[k] = empty_kind()
@@ -48,7 +48,8 @@ def add_terms(st, rng, tag, coeffs, tuples_by_kind, ntypes=2, xl=("ka",)):
     for (k, t_, c_, x_, l_, ar) in KINDS:
         tups = [tuple(t) for t in tuples_by_kind.get(k, [])]
         nt = rng.randint(1, ntypes)
-        st[k] = dict(tup=tups, typ=[rng.randrange(nt) for _ in tups], coef=(["%s%s%d 1.5 #c%d" % (tag, k[0], i, i) for i in range(nt)] if coeffs else []),
+        long = " 350.123456 1.350000 0.000001" if (tag == "r" and rng.random() < 0.5) else ""
+        st[k] = dict(tup=tups, typ=[rng.randrange(nt) for _ in tups], coef=(["%s%s%d 1.5%s #c%d" % (tag, k[0], i, long, i) for i in range(nt)] if coeffs else []),
                      xl=list(xl), xf=[["%s%s%d%s" % (tag, k[0], j, l) for l in xl] for j in range(len(tups))])
 
 
